@@ -134,11 +134,14 @@ class TestDataGenerator():
 
         # Check every 'sampling_interval' hours for a transition
         transitions: List[TransitionTimes] = []
+        until_dt = datetime(self.until_year, 1, 1, 0, 0, 0, tzinfo=UTC)
         while True:
-            next_dt = dt + self.sampling_interval
-            next_dt_local = next_dt.astimezone(tz)
-            if next_dt.year >= self.until_year:
+            if dt >= until_dt:
                 break
+            # The last interval is cut off at the end of the range instead of
+            # being skipped, so that a transition in it is still detected.
+            next_dt = min(dt + self.sampling_interval, until_dt)
+            next_dt_local = next_dt.astimezone(tz)
 
             # Look for a UTC or DST transition.
             if self.is_transition(dt_local, next_dt_local):
